@@ -30,6 +30,8 @@ pub struct Mon {
     pub tab_noop: bool,
     /// C13: write/handler output framing and line preservation
     pub framing: bool,
+    /// C04 through the Cli: ignorable sequences change neither the line nor the screen
+    pub ignored_inert: bool,
 }
 
 #[derive(Clone, Debug)]
@@ -570,6 +572,22 @@ impl<C: Autocomplete + Help> SessModel<C> {
                 }
             }
         }
+        if mon.ignored_inert {
+            if let Ev::Key(Key::Ignored(b), _) = e {
+                stats.hit("ignored_sequences_checked");
+                if after.text != before.text
+                    || after.cursor != before.cursor
+                    || last.term_line != bterm.trimmed()
+                    || last.term_col != bterm.col
+                    || !handler_calls.is_empty()
+                {
+                    v.push(Viol::new(
+                        format!("{}/ignored-sequence-leaked", p),
+                        format!("bytes {:02X?}: line {:?}@{} -> {:?}@{}, screen {:?}@{} -> {:?}@{}", b, btext, before.cursor, String::from_utf8_lossy(&after.text), after.cursor, bterm.trimmed(), bterm.col, last.term_line, last.term_col),
+                    ));
+                }
+            }
+        }
         if mon.up_down_noop {
             if let Ev::Key(Key::Up, _) | Ev::Key(Key::Down, _) = e {
                 stats.hit("updown_noop_checked");
@@ -617,6 +635,7 @@ pub fn ev_class(e: &Ev) -> &'static str {
         Ev::Key(Key::Tab, _) => "tab",
         Ev::Key(Key::Cr, _) | Ev::Key(Key::Lf, _) => "enter",
         Ev::Key(Key::Raw(_), _) => "raw-byte",
+        Ev::Key(Key::Ignored(_), _) => "ignored-sequence",
         Ev::Write(_) => "write",
         Ev::SetPrompt(_) => "set-prompt",
     }
@@ -681,6 +700,7 @@ impl<C: Autocomplete + Help> Model for SessModel<C> {
             "tab" => "ev_tab",
             "enter" => "ev_enter",
             "raw-byte" => "ev_raw",
+            "ignored-sequence" => "ev_ignored",
             "write" => "ev_write",
             _ => "ev_set_prompt",
         });
